@@ -16,6 +16,10 @@ Positional layouts are NOT hard-coded: the `Usage:` line of `--help` of the bina
 parsed and the arguments are filled by name.  Decimals are typed as raw 18-decimal integers
 (0.5 = 500000000000000000), timestamps as RFC3339.
 
+The CLI is the subject; the node's REST gateway (served by the same process) is only the witness:
+when a CLI query cannot be displayed the violation is recorded and the same question is put to the
+gateway, so that "the CLI cannot show it" and "the chain did not do it" stay two different findings.
+
 One genesis parameter differs from the default: `extended_period` (unit: DAYS) is set to 0 so that
 the extended round of the batch auction ends at once and the auction can be seen FINISHED within
 the run; the creation fee keeps its default (100000000stake) and is checked with `query params`.
@@ -32,8 +36,11 @@ import sys
 import tempfile
 import threading
 import time
+import urllib.error
+import urllib.request
 
 REPO = "/repo"
+REST_PREFIXES = ("/tendermint/fundraising/fundraising", "/fundraising/fundraising/v1", "/fundraising/fundraising")
 CHAIN_ID = "c20"
 GENESIS_COINS = "100000000000stake,1000000000dn0,1000000000dn1"
 BOB_COINS = "1000000000stake,1000000000dn0,1000000000dn1"
@@ -52,7 +59,7 @@ B_START, B_LEN = 2, 8                            # (b): start +2 s, end 8 s late
 STEP_TIMEOUT = 60.0                              # upper bound of every wait
 TOTAL_BUDGET = 170.0                             # whole run
 
-STATUS = {"STAND_BY": "AUCTION_STATUS_STANDING_BY", "STARTED": "AUCTION_STATUS_STARTED",
+STATUS = {"STAND_BY": "AUCTION_STATUS_STANDBY", "STARTED": "AUCTION_STATUS_STARTED",
           "VESTING": "AUCTION_STATUS_VESTING", "FINISHED": "AUCTION_STATUS_FINISHED",
           "CANCELLED": "AUCTION_STATUS_CANCELLED"}
 
@@ -122,6 +129,21 @@ def first_json(text):
     raise ValueError("no JSON value in output")
 
 
+def clip(text, n=700):
+    """head and tail of a long text (CLI errors carry the reason at the end)"""
+    text = (text or "").strip()
+    return text if len(text) <= n else text[:n // 2] + " [...] " + text[-n // 2:]
+
+
+def _die_with_parent():
+    """child side: be killed if the harness process disappears (best effort, Linux)"""
+    try:
+        import ctypes
+        ctypes.CDLL("libc.so.6", use_errno=True).prctl(1, int(signal.SIGKILL))   # PR_SET_PDEATHSIG
+    except Exception:
+        pass
+
+
 def base_of(auction):
     """the common part of an auction object, wherever the encoding puts it"""
     if not isinstance(auction, dict):
@@ -142,6 +164,9 @@ class Chain:
         self.proc = None
         self.nodelog = os.path.join(workdir, "node.log")
         self.rpc = None
+        self.api = None
+        self.rest_prefix = None
+        self.seen_violation = set()
         self.t0 = time.time()
         self.addr = {}
         self.usage_cache = {}
@@ -161,8 +186,10 @@ class Chain:
         with self.lock:
             self.checks.append({"check": name, "ok": ok})
             if not ok:
-                self.violations.append({"sig": sig or ("chain-check-failed:" + name),
-                                        "msg": str(msg)[:1500], "cmd": cmd})
+                sig = sig or ("chain-check-failed:" + name)
+                if (sig, cmd) not in self.seen_violation:      # one violation per (sig, cmd)
+                    self.seen_violation.add((sig, cmd))
+                    self.violations.append({"sig": sig, "msg": str(msg)[:1500], "cmd": cmd})
         self.log("[c20chain %6.1fs] %s %s%s" % (time.time() - self.t0, "ok  " if ok else "FAIL", name,
                                                  "" if ok else "  -- " + str(msg)[:300]))
         return ok
@@ -222,7 +249,7 @@ class Chain:
                 obj = None
         if expect_ok:
             self.check("query %s %s exits 0" % (name, " ".join(args)), rc == 0,
-                       "chain-query-failed:" + name, "rc=%s stderr=%s" % (rc, err.strip()[-600:]), shown)
+                       "chain-query-failed:" + name, "rc=%s stderr=%s" % (rc, clip(err)), shown)
             if rc == 0:
                 self.check("query %s %s prints JSON" % (name, " ".join(args)), obj is not None,
                            "chain-query-unparseable:" + name, out[:600], shown)
@@ -231,11 +258,89 @@ class Chain:
     def quiet_query(self, name, args):
         rc, out, err, _ = self.cli(["query", "fundraising", name] + list(args) + ["--output", "json"], timeout=15)
         if rc != 0:
-            return None, "rc=%s %s" % (rc, err.strip()[-300:])
+            return None, "rc=%s %s" % (rc, clip(err, 400))
         try:
             return first_json(out), ""
         except ValueError:
             return None, "unparseable: " + out[:300]
+
+    # ---- the witness: the node's REST gateway ---------------------------------------------------
+    def rest(self, path):
+        """GET <prefix><path> on the node's gateway; (obj or None, url, why)"""
+        if not self.api:
+            return None, "", "no gateway"
+        why = ""
+        for pre in ([self.rest_prefix] if self.rest_prefix else list(REST_PREFIXES)):
+            url = self.api + pre + path
+            try:
+                with urllib.request.urlopen(url, timeout=5) as r:
+                    obj = json.loads(r.read().decode("utf8"))
+                self.rest_prefix = pre
+                return obj, url, ""
+            except urllib.error.HTTPError as e:
+                why = "HTTP %s %s" % (e.code, e.read().decode("utf8", "replace")[:300])
+            except (OSError, ValueError) as e:
+                why = repr(e)
+        return None, self.api + path, why
+
+    def shown_url(self, url):
+        """the gateway request without the (random) port, so that violations stay comparable between runs"""
+        return "GET <gateway>" + url[len(self.api or ""):]
+
+    @staticmethod
+    def pick(obj, *keys):
+        if isinstance(obj, dict):
+            for k in keys:
+                if isinstance(obj.get(k), list):
+                    return obj[k]
+        return []
+
+    def list_auctions(self):
+        """(auctions, source, why): the CLI's answer, else the gateway's"""
+        obj, why = self.quiet_query("list-auction", [])
+        if isinstance(obj, dict):
+            return self.pick(obj, "auctions", "auction"), "cli", ""
+        r, url, why2 = self.rest("/auction")
+        if isinstance(r, dict):
+            return self.pick(r, "auctions", "auction"), "rest", why
+        return None, None, "cli: %s; rest: %s" % (why, why2)
+
+    def list_vqueues(self, aids):
+        obj, why = self.quiet_query("list-vesting-queue", [])
+        if isinstance(obj, dict):
+            return self.pick(obj, "vesting_queues", "vesting_queue", "vestingQueue"), "cli", ""
+        qs, ok = {}, True
+        for i in aids:
+            r, url, why2 = self.rest("/auction/%d/vestings" % i)
+            if isinstance(r, dict):
+                for q in self.pick(r, "vesting_queues", "vesting_queue", "vestingQueue"):
+                    qs[(q.get("auction_id"), q.get("release_time"))] = q   # an answer may repeat other auctions' queues
+            else:
+                ok = False
+        return (list(qs.values()), "rest", why) if ok else (None, None, why)
+
+    def get_auction(self, aid):
+        """(auction object or None, source, shown, raw): `get-auction` through the CLI (checked), else the gateway"""
+        rc, obj, out, err, shown = self.query("get-auction", [str(aid)])
+        if isinstance(obj, dict) and isinstance(obj.get("auction"), dict):
+            return obj["auction"], "cli", shown, out
+        r, url, why = self.rest("/auction/%d" % aid)
+        if isinstance(r, dict) and isinstance(r.get("auction"), dict):
+            return r["auction"], "rest", self.shown_url(url), json.dumps(r)
+        return None, None, shown, (out + err)[-600:]
+
+    def get_vqueues(self, aid):
+        flag = self.auction_flag("list-vesting-queue", aid)
+        rc, obj, out, err, shown = self.query("list-vesting-queue", flag)
+        if isinstance(obj, dict):
+            qs, src, raw = self.pick(obj, "vesting_queues", "vesting_queue", "vestingQueue"), "cli", out
+        else:
+            r, url, why = self.rest("/auction/%d/vestings" % aid)
+            if not isinstance(r, dict):
+                return None, None, shown, (out + err)[-600:]
+            qs, src, shown, raw = self.pick(r, "vesting_queues", "vesting_queue", "vestingQueue"), "rest", self.shown_url(url), json.dumps(r)
+        self.vq_foreign = [q for q in qs if int(q.get("auction_id", 0) or 0) != aid]
+        return [q for q in qs if int(q.get("auction_id", 0) or 0) == aid], src, shown, raw
 
     # ---- node --------------------------------------------------------------------------------
     def setup(self):
@@ -283,8 +388,9 @@ class Chain:
                        "chain-setup-failed:genesis-params", repr(e), gpath)
             return False
         # ports and block time before gentx (the gentx memo carries the p2p address)
-        rpc, p2p = free_ports(2)
+        rpc, p2p, api = free_ports(3)
         self.rpc = "tcp://127.0.0.1:%d" % rpc
+        self.api = "http://127.0.0.1:%d" % api
         cfg = os.path.join(self.home, "config", "config.toml")
         app = os.path.join(self.home, "config", "app.toml")
         try:
@@ -292,7 +398,8 @@ class Chain:
             toml_set(cfg, "rpc", "pprof_laddr", '""')
             toml_set(cfg, "p2p", "laddr", '"tcp://127.0.0.1:%d"' % p2p)
             toml_set(cfg, "consensus", "timeout_commit", '"500ms"')
-            toml_set(app, "api", "enable", "false")
+            toml_set(app, "api", "enable", "true")
+            toml_set(app, "api", "address", '"tcp://127.0.0.1:%d"' % api)
             toml_set(app, "grpc", "enable", "false")
             toml_set(app, "grpc-web", "enable", "false")
         except (OSError, RuntimeError) as e:
@@ -313,7 +420,7 @@ class Chain:
         logf = open(self.nodelog, "w")
         self.proc = subprocess.Popen([self.bin, "start", "--home", self.home, "--minimum-gas-prices", "0stake"],
                                      stdin=subprocess.DEVNULL, stdout=logf, stderr=subprocess.STDOUT,
-                                     start_new_session=True)
+                                     start_new_session=True, preexec_fn=_die_with_parent)
         logf.close()
         deadline = time.time() + min(STEP_TIMEOUT, max(5.0, self.left()))
         height, why = 0, ""
@@ -389,6 +496,10 @@ class Chain:
         if rc != 0:
             res["raw_log"] = err.strip()[-800:]
             return res
+        return self.await_tx(res, out)
+
+    def await_tx(self, res, out):
+        """res completed with the CheckTx answer `out` and, if accepted, with the result once included"""
         try:
             b = first_json(out)
         except ValueError:
@@ -406,6 +517,10 @@ class Chain:
                     t = first_json(out2)
                     res.update(stage="deliver", code=t.get("code", 0), raw_log=t.get("raw_log", ""),
                                height=t.get("height"), events=t.get("events") or [])
+                    self.sample("fundraisingd query tx %s --output json" % res["hash"], 0,
+                                "TX RESULT of [%s]: height=%s codespace=%s code=%s raw_log=%s" % (
+                                    res["cmd"].split(" --from")[0], t.get("height"), t.get("codespace", ""),
+                                    t.get("code", 0), t.get("raw_log", "")))
                     return res
                 except ValueError:
                     last = out2[:300]
@@ -433,46 +548,53 @@ class Chain:
     # ---- observer ----------------------------------------------------------------------------
     def observe_once(self):
         now = time.time() - self.t0
-        obj, why = self.quiet_query("list-auction", [])
-        if obj is None:
-            self.obs_errors.append((now, "list-auction", why))
-        else:
-            for a in obj.get("auctions") or obj.get("auction") or []:
+        lst, src, why = self.list_auctions()
+        if why:
+            with self.lock:
+                self.obs_errors.append((round(now, 2), "list-auction", clip(why, 400)))
+        aids = []
+        if lst is not None:
+            for a in lst:
                 b = base_of(a)
                 try:
-                    aid = int(b.get("id", 0))
+                    aid = int(b.get("id", 0) or 0)
                 except (TypeError, ValueError):
                     continue
+                aids.append(aid)
                 st = b.get("status", "AUCTION_STATUS_UNSPECIFIED")
                 ne = len(b.get("end_times") or [])
                 with self.lock:
                     h = self.hist.setdefault(aid, [])
                     if not h or (h[-1][1], h[-1][2]) != (st, ne):
-                        h.append((round(now, 2), st, ne))
+                        h.append((round(now, 2), st, ne, src))
                     self.last_auction[aid] = a
-        obj, why = self.quiet_query("list-vesting-queue", [])
-        if obj is None:
-            self.obs_errors.append((now, "list-vesting-queue", why))
-        else:
-            qs = obj.get("vesting_queues") or obj.get("vesting_queue") or obj.get("vestingQueue") or []
-            snap = sorted((int(q.get("auction_id", 0)), q.get("release_time", ""), bool(q.get("released", False)))
+        qs, src, why = self.list_vqueues(aids)
+        if why:
+            with self.lock:
+                self.obs_errors.append((round(now, 2), "list-vesting-queue", clip(why, 400)))
+        if qs is not None:
+            snap = sorted((int(q.get("auction_id", 0) or 0), q.get("release_time", ""), bool(q.get("released", False)))
                           for q in qs)
             with self.lock:
                 if not self.vq_hist or self.vq_hist[-1][1] != snap:
-                    self.vq_hist.append((round(now, 2), snap))
-                self.last_vq = obj
+                    self.vq_hist.append((round(now, 2), snap, src))
 
     def observer(self):
         while not self.obs_stop.is_set():
             try:
                 self.observe_once()
             except Exception as e:  # the observer must never die silently
-                self.obs_errors.append((time.time() - self.t0, "observer", repr(e)))
+                with self.lock:
+                    self.obs_errors.append((round(time.time() - self.t0, 2), "observer", repr(e)))
             self.obs_stop.wait(0.2)
 
     def statuses(self, aid):
         with self.lock:
-            return [s for _, s, _ in self.hist.get(aid, [])]
+            out = []
+            for h in self.hist.get(aid, []):
+                if not out or out[-1] != h[1]:
+                    out.append(h[1])
+            return out
 
     def wait_for(self, pred, timeout):
         deadline = time.time() + min(timeout, max(1.0, self.left()))
@@ -548,10 +670,10 @@ class Chain:
             self.check_auction(ids["a"], "a", alice, "fixed", rfc3339(a_start), [rfc3339(a_end)],
                                [(rfc3339(t), DEC_HALF) for t in a_rel][:n_sched_a],
                                [STATUS["STAND_BY"], STATUS["STARTED"]])
-            self.check("auction (a) is first seen in STAND_BY", (self.statuses(ids["a"]) or [None])[0] == STATUS["STAND_BY"]
-                       or self.wait_for(lambda: bool(self.statuses(ids["a"])), 5)
-                       and self.statuses(ids["a"])[0] == STATUS["STAND_BY"],
-                       "chain-lifecycle:not-standby", "history %s" % self.hist.get(ids["a"]), "list-auction")
+            aid0 = ids["a"]
+            self.wait_for(lambda: bool(self.statuses(aid0)), 5)
+            self.check("auction (a) is first seen in STAND_BY", (self.statuses(aid0) or [None])[0] == STATUS["STAND_BY"],
+                       "chain-lifecycle:not-standby", "history %s" % self.hist.get(aid0), "list-auction")
 
         # -- 2b. batch auction, no vesting schedule
         now = time.time()
@@ -599,10 +721,10 @@ class Chain:
                 self.check("tx cancel-auction included with code 0", r["stage"] == "deliver" and r["code"] == 0,
                            "chain-tx-failed:cancel-auction",
                            "stage=%s code=%s log=%s" % (r["stage"], r["code"], r["raw_log"]), r["cmd"])
-                rc, obj, out, err, shown = self.query("get-auction", [str(ids["c"])])
-                st = base_of((obj or {}).get("auction")).get("status") if isinstance(obj, dict) else None
-                self.check("auction (c) is CANCELLED after cancel-auction", st == STATUS["CANCELLED"],
-                           "chain-lifecycle:not-cancelled", out[:800], shown)
+                a, src, shown, raw = self.get_auction(ids["c"])
+                st = base_of(a).get("status")
+                self.check("auction (c) is CANCELLED after cancel-auction [%s]" % src, st == STATUS["CANCELLED"],
+                           "chain-lifecycle:not-cancelled", raw[:800], shown)
         self.ids = ids
 
         # -- 4. the allow-list switch is off at run time
@@ -630,6 +752,17 @@ class Chain:
                                re.search(r"not allowed|allowed bidder|allow", r["raw_log"] or "", re.I) is not None,
                                "chain-nonallowlisted-bid-wrong-error",
                                "code=%s log=%s" % (r["code"], r["raw_log"]), r["cmd"])
+            values = {"auction-id": str(ids.get("b", aid)), "bid-id": "1", "price": RAW_HALF, "coin": "20" + PAYING}
+            argv, names = self.positional("tx", "modify-bid", values)
+            self.check("modify-bid exists and its Usage is understood", argv is not None,
+                       "chain-cli-missing:modify-bid", "names=%s" % names, "modify-bid --help")
+            if argv is not None:
+                r = self.tx("modify-bid", argv, "bob")
+                self.modify_result = r
+                sent = r["stage"] in ("deliver", "checktx") and r["cli_rc"] == 0
+                self.check("modify-bid of an absent bid reaches the chain and is rejected (code != 0)",
+                           sent and r["code"] not in (0, None), "chain-tx-unexpected:modify-bid",
+                           "stage=%s rc=%s code=%s log=%s" % (r["stage"], r["cli_rc"], r["code"], r["raw_log"]), r["cmd"])
             self.add_allowed_bidder(aid, bob)
 
         # -- 3. queries
@@ -639,35 +772,32 @@ class Chain:
         self.lifecycle(ids)
 
     def new_auction_id(self, ids):
-        """the id that list-auction shows and that we have not attributed yet"""
+        """the id that the auction list shows and that we have not attributed yet"""
         known = set(ids.values())
-        obj, why = self.quiet_query("list-auction", [])
+        lst, src, why = self.list_auctions()
         cand = []
-        if isinstance(obj, dict):
-            for a in obj.get("auctions") or obj.get("auction") or []:
-                try:
-                    i = int(base_of(a).get("id", 0))
-                except (TypeError, ValueError):
-                    continue
-                if i not in known:
-                    cand.append(i)
+        for a in lst or []:
+            try:
+                i = int(base_of(a).get("id", 0) or 0)
+            except (TypeError, ValueError):
+                continue
+            if i not in known:
+                cand.append(i)
         if len(cand) == 1:
             return cand[0]
         nxt = (max(known) + 1) if known else 0
-        self.check("the new auction is listed by list-auction", False, "chain-query-content:list-auction-new",
+        self.check("the new auction is listed", False, "chain-query-content:list-auction-new",
                    "unattributed ids %s (%s); assuming %d" % (cand, why, nxt), "list-auction")
         return nxt
 
     def check_auction(self, aid, tag, auctioneer, kind, start, ends, scheds, statuses):
-        rc, obj, out, err, shown = self.query("get-auction", [str(aid)])
-        if not isinstance(obj, dict):
-            return
-        a = obj.get("auction")
+        """what was typed is what is stored: the auction read back (CLI, else gateway) against the typed values"""
+        a, src, shown, out = self.get_auction(aid)
         b = base_of(a)
         sig = "chain-roundtrip:%s:" % ("create-fixed-price-auction" if kind == "fixed" else "create-batch-auction")
-        name = "get-auction %d (%s): " % (aid, tag)
-        self.check(name + "has an auction object", isinstance(a, dict) and bool(b), "chain-query-content:get-auction",
-                   out[:600], shown)
+        name = "auction %d (%s) read back [%s]: " % (aid, tag, src)
+        self.check("auction %d (%s) can be read back" % (aid, tag), isinstance(a, dict) and bool(b),
+                   "chain-query-content:get-auction", out[:600], shown)
         if not b:
             return
         typ = (a.get("@type") or a.get("type") or b.get("type") or "")
@@ -713,37 +843,78 @@ class Chain:
                        "chain-query-content:get-auction-remaining", json.dumps(a.get("remaining_selling_coin")), shown)
 
     def add_allowed_bidder(self, aid, bob):
+        """the default build must refuse MsgAddAllowedBidder at run time ("... is disabled")"""
+        ab = {"auction_id": str(aid), "bidder": bob, "max_bid_amount": "100"}
+        abj = json.dumps(ab, separators=(",", ":"))
         u = self.usage("tx", "add-allowed-bidder")
+        disabled = False
         if u is None:
-            self.check("add-allowed-bidder: command absent from the default build (nothing to reject)", True)
-            self.samples.append({"cmd": "fundraisingd tx fundraising add-allowed-bidder --help", "rc": None,
-                                 "out": "command not present", "err": ""})
-            return
-        names, text = u
-        ab = json.dumps({"auction_id": str(aid), "bidder": bob, "max_bid_amount": "100"}, separators=(",", ":"))
-        values = {"auction-id": str(aid), "allowed-bidder": ab}
-        argv = []
-        for n in names:
-            if n in values:
-                argv.append(values[n])
-        if "auction-id" not in names and self.has_flag("tx", "add-allowed-bidder", "auction-id"):
-            argv += ["--auction-id", str(aid)]
-        if "allowed-bidder" not in names and self.has_flag("tx", "add-allowed-bidder", "allowed-bidder"):
-            argv += ["--allowed-bidder", ab]
-        r = self.tx("add-allowed-bidder", argv, "bob")
-        self.aab_result = r
-        rejected = not (r["stage"] == "deliver" and r["code"] == 0)
-        self.check("add-allowed-bidder is rejected in the default build", rejected, "chain-add-allowed-bidder-accepted",
-                   "stage=%s code=%s log=%s" % (r["stage"], r["code"], r["raw_log"]), r["cmd"])
-        if rejected:
-            self.check("add-allowed-bidder rejection says the switch is disabled",
-                       re.search(r"disabled", r["raw_log"] or "", re.I) is not None,
+            self.check("add-allowed-bidder: command absent from the default build", True)
+            self.sample("fundraisingd tx fundraising add-allowed-bidder --help", None, "command not present")
+        else:
+            names, text = u
+            values = {"auction-id": str(aid), "allowed-bidder": abj}
+            argv = [values[n] for n in names if n in values]
+            if "auction-id" not in names and self.has_flag("tx", "add-allowed-bidder", "auction-id"):
+                argv += ["--auction-id", str(aid)]
+            can_name_bidder = "allowed-bidder" in names
+            if not can_name_bidder and self.has_flag("tx", "add-allowed-bidder", "allowed-bidder"):
+                argv += ["--allowed-bidder", abj]
+                can_name_bidder = True
+            r = self.tx("add-allowed-bidder", argv, "bob")
+            self.aab_result = r
+            rejected = not (r["stage"] == "deliver" and r["code"] == 0)
+            self.check("add-allowed-bidder typed at the CLI is rejected in the default build", rejected,
+                       "chain-add-allowed-bidder-accepted",
+                       "stage=%s code=%s log=%s" % (r["stage"], r["code"], r["raw_log"]), r["cmd"])
+            disabled = rejected and re.search(r"disabled", r["raw_log"] or "", re.I) is not None
+            self.sample(r["cmd"], r["cli_rc"], "ADD-ALLOWED-BIDDER VIA CLI: positional=%s bidder can be typed=%s stage=%s "
+                        "code=%s log=%s" % (names, can_name_bidder, r["stage"], r["code"], r["raw_log"]))
+            if can_name_bidder:
+                self.check("add-allowed-bidder rejection says the switch is disabled", disabled,
+                           "chain-add-allowed-bidder-wrong-error",
+                           "stage=%s code=%s log=%s" % (r["stage"], r["code"], r["raw_log"]), r["cmd"])
+        if not disabled:
+            # the CLI of this build cannot name the bidder (or has no such command): the message is written
+            # by hand, signed and broadcast with the binary's generic `tx sign` / `tx broadcast`
+            r = self.raw_tx({"@type": "/fundraising.fundraising.v1.MsgAddAllowedBidder", "auction_id": str(aid),
+                             "allowed_bidder": ab}, "bob", "add-allowed-bidder(hand-written)")
+            self.aab_raw_result = r
+            rejected = not (r["stage"] == "deliver" and r["code"] == 0)
+            self.check("hand-written MsgAddAllowedBidder is rejected by the node", rejected,
+                       "chain-add-allowed-bidder-accepted",
+                       "stage=%s code=%s log=%s" % (r["stage"], r["code"], r["raw_log"]), r["cmd"])
+            self.check("hand-written MsgAddAllowedBidder: the node says the switch is disabled",
+                       rejected and r["stage"] == "deliver" and re.search(r"disabled", r["raw_log"] or "", re.I) is not None,
                        "chain-add-allowed-bidder-wrong-error",
-                       "positional=%s stage=%s code=%s log=%s" % (names, r["stage"], r["code"], r["raw_log"]), r["cmd"])
+                       "stage=%s code=%s log=%s" % (r["stage"], r["code"], r["raw_log"]), r["cmd"])
         rc, obj, out, err, shown = self.query("list-allowed-bidder", self.auction_flag("list-allowed-bidder", aid))
-        lst = (obj or {}).get("allowed_bidders") or (obj or {}).get("allowed_bidder") or []
+        lst = self.pick(obj, "allowed_bidders", "allowed_bidder", "allowedBidder")
         self.check("list-allowed-bidder stays empty", isinstance(obj, dict) and not lst,
                    "chain-allowlist-not-empty", out[:600], shown)
+
+    def raw_tx(self, msg, sender, label):
+        """sign and broadcast a hand-written message with `tx sign` / `tx broadcast`; same result shape as tx()"""
+        unsigned = os.path.join(self.work, "unsigned.json")
+        signed = os.path.join(self.work, "signed.json")
+        doc = {"body": {"messages": [msg], "memo": "", "timeout_height": "0", "extension_options": [],
+                        "non_critical_extension_options": []},
+               "auth_info": {"signer_infos": [], "fee": {"amount": [], "gas_limit": "1000000", "payer": "", "granter": ""},
+                             "tip": None}, "signatures": []}
+        json.dump(doc, open(unsigned, "w"))
+        rc, out, err, shown = self.cli(["tx", "sign", unsigned, "--from", sender, "--keyring-backend", "test",
+                                        "--chain-id", CHAIN_ID, "--output-document", signed], record=True)
+        res = {"cmd": shown, "cli_rc": rc, "stage": "cli", "code": None, "raw_log": err.strip()[-800:], "hash": None,
+               "events": []}
+        if rc != 0:
+            return res
+        rc, out, err, shown = self.cli(["tx", "broadcast", signed, "--broadcast-mode", "sync", "--output", "json"],
+                                       record=True)
+        res.update(cmd=shown + "   # " + json.dumps(msg, separators=(",", ":")), cli_rc=rc)
+        if rc != 0:
+            res["raw_log"] = err.strip()[-800:]
+            return res
+        return self.await_tx(res, out)
 
     def auction_flag(self, cmd, aid):
         """how the auction id is passed to a list query of the binary under test"""
@@ -771,41 +942,42 @@ class Chain:
 
     def queries(self, ids, alice, bob):
         rc, obj, out, err, shown = self.query("list-auction", [])
-        lst = (obj or {}).get("auctions") or (obj or {}).get("auction") or [] if isinstance(obj, dict) else []
-        got = sorted(int(base_of(a).get("id", 0)) for a in lst)
-        self.check("list-auction shows the %d created auctions" % len(ids), got == sorted(ids.values()),
-                   "chain-query-content:list-auction", "ids %s, want %s" % (got, sorted(ids.values())), shown)
-        self.check("list-auction: every entry carries its concrete type",
-                   all(isinstance(a, dict) and (a.get("@type") or base_of(a).get("type")) for a in lst) and bool(lst),
-                   "chain-query-content:list-auction-type", out[:400], shown)
+        lst = self.pick(obj, "auctions", "auction")
+        if isinstance(obj, dict):
+            got = sorted(int(base_of(a).get("id", 0) or 0) for a in lst)
+            self.check("list-auction shows the %d created auctions" % len(ids), got == sorted(ids.values()),
+                       "chain-query-content:list-auction", "ids %s, want %s" % (got, sorted(ids.values())), shown)
+            self.check("list-auction: every entry carries its concrete type",
+                       bool(lst) and all(isinstance(a, dict) and (a.get("@type") or a.get("type")) for a in lst),
+                       "chain-query-content:list-auction-type", out[:400], shown)
         for flag, val, want in (("status", STATUS["CANCELLED"], [ids["c"]] if "c" in ids else []),
                                 ("type", "AUCTION_TYPE_BATCH", [ids["b"]] if "b" in ids else [])):
             if self.has_flag("query", "list-auction", flag):
                 rc, obj, out, err, shown = self.query("list-auction", ["--" + flag, val])
-                l2 = (obj or {}).get("auctions") or (obj or {}).get("auction") or [] if isinstance(obj, dict) else []
-                g2 = sorted(int(base_of(a).get("id", 0)) for a in l2)
-                self.check("list-auction --%s %s filters" % (flag, val), g2 == sorted(want),
-                           "chain-query-content:list-auction-" + flag, "ids %s, want %s" % (g2, want), shown)
+                if isinstance(obj, dict):
+                    g2 = sorted(int(base_of(a).get("id", 0) or 0) for a in self.pick(obj, "auctions", "auction"))
+                    self.check("list-auction --%s %s filters" % (flag, val), g2 == sorted(want),
+                               "chain-query-content:list-auction-" + flag, "ids %s, want %s" % (g2, want), shown)
         aid = ids.get("a", 0)
-        for name, keyopts in (("list-bid", ("bids", "bid")), ("list-allowed-bidder", ("allowed_bidders", "allowed_bidder")),
-                              ("list-vesting-queue", ("vesting_queues", "vesting_queue"))):
+        for name, keys in (("list-bid", ("bids", "bid")),
+                           ("list-allowed-bidder", ("allowed_bidders", "allowed_bidder", "allowedBidder")),
+                           ("list-vesting-queue", ("vesting_queues", "vesting_queue", "vestingQueue"))):
             if self.usage("query", name) is None:
                 self.check("query %s exists" % name, False, "chain-cli-missing:" + name, "", name)
                 continue
-            for args in ([], self.auction_flag(name, aid)):
-                if name == "list-bid" and not args:
-                    pass
+            flag = self.auction_flag(name, aid)
+            self.check("query %s: the auction id can be typed (%s)" % (name, " ".join(flag) or "-"), bool(flag),
+                       "chain-cli-no-auction-id:" + name, "neither positional nor --auction-id", name + " --help")
+            for args in ([], flag) if flag else ([],):
                 rc, obj, out, err, shown = self.query(name, args)
                 if isinstance(obj, dict):
-                    lst = next((obj[k] for k in keyopts if k in obj), [])
-                    self.check("query %s %s: a list (possibly empty) and pagination" % (name, " ".join(args)),
-                               isinstance(lst, list) and ("pagination" in obj or lst == [] or True),
+                    lst = self.pick(obj, *keys)
+                    self.check("query %s %s: an object with pagination" % (name, " ".join(args)), "pagination" in obj,
                                "chain-query-content:" + name, out[:400], shown)
-                    if name == "list-bid":
-                        self.check("query list-bid %s: no bid exists" % " ".join(args), lst == [],
-                                   "chain-nonallowlisted-bid-stored", out[:600], shown)
-                if not args:
-                    continue
+                    if name != "list-vesting-queue":
+                        self.check("query %s %s: nothing stored (no bidder can be allow-listed)" % (name, " ".join(args)),
+                                   lst == [], "chain-nonallowlisted-bid-stored" if name == "list-bid" else
+                                   "chain-allowlist-not-empty", out[:600], shown)
         self.negative("get-auction", ["99"])
         self.negative("get-bid", [str(aid), "1"])
         self.negative("get-allowed-bidder", [str(aid), bob])
@@ -814,7 +986,8 @@ class Chain:
         a_start, a_end, a_rel = self.a_times
 
         def last(i):
-            return "history %s last %s" % (self.hist.get(i), json.dumps(self.last_auction.get(i)))
+            with self.lock:
+                return "history %s last %s" % (self.hist.get(i), json.dumps(self.last_auction.get(i)))
 
         if "b" in ids:
             b = ids["b"]
@@ -823,90 +996,103 @@ class Chain:
             ok = self.wait_for(lambda: STATUS["FINISHED"] in self.statuses(b), STEP_TIMEOUT)
             self.check("auction (b) goes STARTED -> FINISHED", ok, "chain-lifecycle:batch-not-finished", last(b),
                        "list-auction")
-            rc, obj, out, err, shown = self.query("get-auction", [str(b)])
-            ba = (obj or {}).get("auction") or {} if isinstance(obj, dict) else {}
+            ba, src, shown, raw = self.get_auction(b)
+            ba = ba or {}
             et = base_of(ba).get("end_times") or []
-            self.check("auction (b) was extended once: two end times (max-extended-round 1, no bids)", len(et) == 2,
-                       "chain-lifecycle:batch-not-extended", "end_times %s" % et, shown)
+            self.check("auction (b) was extended once: two end times (max-extended-round 1, no bids) [%s]" % src,
+                       len(et) == 2, "chain-lifecycle:batch-not-extended", "end_times %s" % et, shown)
             if len(et) == 2:
                 self.check("auction (b): second end time = first + extended_period (0 days in this genesis)",
                            same_time(et[0], et[1]), "chain-lifecycle:batch-extension-time", "end_times %s" % et, shown)
-            self.check("auction (b) FINISHED: matched price is displayed as a decimal",
+            self.check("auction (b) FINISHED: matched price is displayed as a decimal [%s]" % src,
                        re.match(r"^\d+\.\d{18}$", str(ba.get("matched_price", ""))) is not None,
                        "chain-query-content:get-auction-matched-price", repr(ba.get("matched_price")), shown)
-            self.batch_final = ba
+            hist = self.statuses(b)
+            self.check("auction (b) status sequence is [STAND_BY,] STARTED, FINISHED",
+                       hist in ([STATUS["STARTED"], STATUS["FINISHED"]],
+                                [STATUS["STAND_BY"], STATUS["STARTED"], STATUS["FINISHED"]]),
+                       "chain-lifecycle:batch-sequence", last(b), "list-auction")
         if "a" in ids:
             a = ids["a"]
             ok = self.wait_for(lambda: STATUS["VESTING"] in self.statuses(a) or STATUS["FINISHED"] in self.statuses(a),
                                STEP_TIMEOUT)
             self.check("auction (a) goes STARTED -> VESTING", ok and STATUS["VESTING"] in self.statuses(a),
                        "chain-lifecycle:not-vesting", last(a), "list-auction")
-            flag = self.auction_flag("list-vesting-queue", a)
 
             def queues():
                 with self.lock:
                     snap = self.vq_hist[-1][1] if self.vq_hist else []
                 return [q for q in snap if q[0] == a]
-            ok = self.wait_for(lambda: len(queues()) == len(a_rel), 10)
-            rc, obj, out, err, shown = self.query("list-vesting-queue", flag)
-            qs = (obj or {}).get("vesting_queues") or (obj or {}).get("vesting_queue") or [] if isinstance(obj, dict) else []
-            qs = [q for q in qs if int(q.get("auction_id", 0)) == a]
-            self.check("list-vesting-queue shows %d queues for auction (a)" % len(a_rel), len(qs) == len(a_rel),
-                       "chain-vesting-queue:count", out[:800], shown)
+            self.wait_for(lambda: len(queues()) == len(a_rel), 10)
+            qs, src, shown, raw = self.get_vqueues(a)
+            qs = qs or []
+            self.check("vesting queue list shows %d queues for auction (a) [%s]" % (len(a_rel), src),
+                       len(qs) == len(a_rel), "chain-vesting-queue:count", raw[:800], shown)
             okq = len(qs) == len(a_rel) and all(
                 same_time(q.get("release_time", ""), rfc3339(t)) and q.get("auctioneer") == self.addr["alice"]
                 and isinstance(q.get("paying_coin"), dict) and q["paying_coin"].get("denom") == PAYING
                 for q, t in zip(sorted(qs, key=lambda q: q.get("release_time", "")), a_rel))
-            self.check("vesting queues carry the typed release times, the auctioneer and the paying coin", okq,
+            self.check("vesting queues carry the typed release times, the auctioneer and the paying coin [%s]" % src, okq,
                        "chain-vesting-queue:content", json.dumps(qs)[:800], shown)
+            if "b" in ids:
+                qb, srcb, shownb, rawb = self.get_vqueues(ids["b"])
+                self.check("vesting queue list asked for auction (b) shows no queue of another auction [%s]" % srcb,
+                           qb is not None and not self.vq_foreign, "chain-query-filter-ignored:list-vesting-queue",
+                           "asked for auction %d, got %s" % (ids["b"], json.dumps(self.vq_foreign)[:600]), shownb)
             ok = self.wait_for(lambda: STATUS["FINISHED"] in self.statuses(a), STEP_TIMEOUT)
             self.check("auction (a) is FINISHED after both release times", ok, "chain-lifecycle:not-finished", last(a),
                        "list-auction")
             hist = self.statuses(a)
             want = [STATUS["STAND_BY"], STATUS["STARTED"], STATUS["VESTING"], STATUS["FINISHED"]]
             self.check("auction (a) status sequence is STAND_BY, STARTED, VESTING, FINISHED", hist == want,
-                       "chain-lifecycle:sequence", "observed %s" % self.hist.get(a), "list-auction")
+                       "chain-lifecycle:sequence", last(a), "list-auction")
             with self.lock:
-                fin_t = next((t for t, s, _ in self.hist.get(a, []) if s == STATUS["FINISHED"]), None)
+                fin_t = next((h[0] for h in self.hist.get(a, []) if h[1] == STATUS["FINISHED"]), None)
             if fin_t is not None and a_rel:
                 self.check("auction (a) is not FINISHED before the last release time",
                            self.t0 + fin_t >= int(a_rel[-1]) - 0.5, "chain-lifecycle:finished-early",
                            "finished at +%.1fs, last release at +%.1fs" % (fin_t, a_rel[-1] - self.t0), "list-auction")
-            ok = self.wait_for(lambda: len(queues()) == len(a_rel) and all(q[2] for q in queues()), 15)
-            rc, obj, out, err, shown = self.query("list-vesting-queue", flag)
-            qs = (obj or {}).get("vesting_queues") or (obj or {}).get("vesting_queue") or [] if isinstance(obj, dict) else []
-            qs = [q for q in qs if int(q.get("auction_id", 0)) == a]
-            self.check("all vesting queues of (a) show released = true at the end",
+            self.wait_for(lambda: len(queues()) == len(a_rel) and all(q[2] for q in queues()), 15)
+            qs, src, shown, raw = self.get_vqueues(a)
+            qs = qs or []
+            self.check("all vesting queues of (a) show released = true at the end [%s]" % src,
                        len(qs) == len(a_rel) and all(q.get("released") is True for q in qs),
-                       "chain-vesting-queue:not-released", out[:800], shown)
+                       "chain-vesting-queue:not-released", raw[:800], shown)
             with self.lock:
-                flips = [(t, [q[2] for q in snap if q[0] == a]) for t, snap in self.vq_hist]
+                flips = [(h[0], [q[2] for q in h[1] if q[0] == a]) for h in self.vq_hist]
             seq = [f for _, f in flips if f]
             if len(a_rel) == 2:
                 self.check("released flags turn true one after the other (FF -> TF -> TT)",
-                           [False, False] in seq and [True, True] in seq and
-                           ([True, False] in seq or seq.index([True, True]) > seq.index([False, False])),
+                           seq == [[False, False], [True, False], [True, True]],
                            "chain-vesting-queue:flag-order", "observed %s" % flips, "list-vesting-queue")
-            self.vq_flips = flips
-            rc, obj, out, err, shown = self.query("get-auction", [str(a)])
+            fa, src, shown, raw = self.get_auction(a)
+            self.check("auction (a) FINISHED can be read back [%s]; nothing was sold" % src,
+                       base_of(fa).get("status") == STATUS["FINISHED"] and
+                       (fa or {}).get("remaining_selling_coin") == {"denom": SELLING[1], "amount": SELLING[0]},
+                       "chain-query-content:get-auction-final", raw[:800], shown)
         if "c" in ids:
             c = ids["c"]
-            rc, obj, out, err, shown = self.query("get-auction", [str(c)])
-            st = base_of((obj or {}).get("auction")).get("status") if isinstance(obj, dict) else None
+            ca, src, shown, raw = self.get_auction(c)
+            st = base_of(ca).get("status")
             hist = self.statuses(c)
-            self.check("auction (c) is CANCELLED and stays so", st == STATUS["CANCELLED"] and
-                       hist and hist[-1] == STATUS["CANCELLED"] and
+            self.check("auction (c) is CANCELLED and stays so [%s]" % src, st == STATUS["CANCELLED"] and
+                       bool(hist) and hist[-1] == STATUS["CANCELLED"] and
                        all(s in (STATUS["STAND_BY"], STATUS["CANCELLED"]) for s in hist),
-                       "chain-lifecycle:cancelled-changed", "now %s history %s" % (st, self.hist.get(c)), shown)
-        self.check("observer: every poll of list-auction / list-vesting-queue was displayable",
-                   not self.obs_errors, "chain-query-failed:observer", "%s" % self.obs_errors[:5], "list-auction")
+                       "chain-lifecycle:cancelled-changed", "now %s %s" % (st, last(c)), shown)
+        with self.lock:
+            errs = list(self.obs_errors)
+        kinds = sorted(set(k for _, k, _ in errs))
+        self.check("observer: every poll of list-auction / list-vesting-queue through the CLI was displayable",
+                   not errs, "chain-query-failed:observer",
+                   "%d failed polls (%s); first: %s" % (len(errs), ", ".join(kinds), errs[:1]), "list-auction")
         self.check("node is still running at the end", self.proc is not None and self.proc.poll() is None,
                    "chain-node-died", self.node_log_tail(), "start")
 
     def result(self):
         with self.lock:
             timeline = {"auction_status_history": {str(k): v for k, v in self.hist.items()},
-                        "vesting_queue_history": [(t, [list(q) for q in s]) for t, s in self.vq_hist],
+                        "vesting_queue_history": [(h[0], [list(q) for q in h[1]], h[2]) for h in self.vq_hist],
+                        "failed_cli_polls": len(self.obs_errors),
                         "ids": getattr(self, "ids", {}), "wall_seconds": round(time.time() - self.t0, 1)}
             return {"violations": list(self.violations), "checks": list(self.checks),
                     "samples": list(self.samples) + [{"cmd": "timeline", "rc": 0, "out": json.dumps(timeline), "err": ""}]}
